@@ -481,8 +481,9 @@ Definition parse_and_check_signature_blob (sig_blob : bytes) : vres (option (Z *
     match sigdecode_der (removelast sig_blob) true with
     | Ret (r, s) =>
       if flag VERIFY_LOW_S
-      then (* check_low_der_signature: hi_s = generator.order() - s; if hi_s < s: raise *)
-           if (Z.of_N (o_order o) - s <? s)%Z then VFail else VOk (Some (r, s))
+      then (* check_low_der_signature: r >= order or s >= order: return; hi_s = order - s; if hi_s < s: raise *)
+           if (Z.of_N (o_order o) <=? r)%Z || (Z.of_N (o_order o) <=? s)%Z then VOk (Some (r, s))
+           else if (Z.of_N (o_order o) - s <? s)%Z then VFail else VOk (Some (r, s))
       else VOk (Some (r, s))
     | Raise E_DER => VOk None
     | Raise E_VALUE => VOk None
@@ -734,7 +735,6 @@ Definition step (s : vmstate) : vres vmstate :=
   if negb is_ok then VFail else
   if match data with Some d => (MAX_BLOB_LENGTH <? N.of_nat (length d))%N | None => false end then VFail else
   let opc := match data with None => (st_opc s + 1)%Z | Some _ => st_opc s end in
-  if negb (check_stack_size s) then VFail else
   let stk := match data with
              | Some d => if all_if_true then d :: st_stack s else st_stack s
              | None => st_stack s
@@ -742,7 +742,9 @@ Definition step (s : vmstate) : vres vmstate :=
   let s1 := mkst pc' stk (st_alt s) (st_cond s) opc (st_bch s) in
   let k := hk opcode in
   vdo s2 <- (if all_if_true || hk_outside k then handler k s1 else VOk s1);
-  if (Z.of_N MAX_OP_COUNT <? st_opc s2)%Z then VFail else VOk s2.
+  if (Z.of_N MAX_OP_COUNT <? st_opc s2)%Z then VFail else
+  (* the stack-size limit applies after each instruction (an initial stack is not checked before the first one) *)
+  if negb (check_stack_size s2) then VFail else VOk s2.
 
 (* `while self.pc < len(self.script): self.eval_instruction()` *)
 Fixpoint run (fuel : nat) (s : vmstate) : vres vmstate :=
@@ -759,9 +761,8 @@ Definition init_state (initial_stack_top_first : list bytes) : vmstate :=
 Definition eval_state (initial_stack_top_first : list bytes) : vres vmstate :=
   if (MAX_SCRIPT_LENGTH <? N.of_nat (length script))%N then VFail else
   vdo s <- run (length script) (init_state initial_stack_top_first);
-  (* post_script_check *)
-  if negb (c_final_ok (st_cond s)) then VFail else
-  if negb (check_stack_size s) then VFail else VOk s.
+  (* post_script_check: only conditional_stack.check_final_state() *)
+  if negb (c_final_ok (st_cond s)) then VFail else VOk s.
 End VM.
 
 (* BitcoinVM(script, tx_context, sighash_f, flags, initial_stack).eval_script(): stacks TOP LAST *)
